@@ -1579,6 +1579,8 @@ def run(ck: core.Check):
                          ("optional floor", lambda: check_optional(ck, drv, mismatches)),
                          ("qualify", lambda: ck.cov.__setitem__("qualify_correspondence", Q.check_qualify(
                              ck, drv, mismatches, 3000 if ck.thorough else 400))),
+                         ("inits", lambda: ck.cov.__setitem__("inits_correspondence", Q.check_inits(
+                             ck, drv, mismatches, 3000 if ck.thorough else 300))),
                          ("schemas", lambda: check_schemas(ck, drv, info, mismatches))):
             try:
                 n = fn()
